@@ -22,6 +22,7 @@ type Fact struct {
 	TyIn  []string // dynamic type is one of these (sorted); nil = unknown
 	TyOut []string // dynamic type is none of these (sorted)
 	Tags  []string // client-defined tags (sorted), e.g. "fresh:chainSubquery"
+	Alias *keyInfo // for "val:<var>" entries: the path the variable currently denotes
 }
 
 func (f *Fact) clone() *Fact {
@@ -45,7 +46,7 @@ func (f *Fact) clone() *Fact {
 }
 
 func (f *Fact) empty() bool {
-	return f.Nil == 0 && !f.HasEq && len(f.Ne) == 0 && f.Lo == nil && f.Hi == nil && f.TyIn == nil && len(f.TyOut) == 0 && len(f.Tags) == 0
+	return f.Nil == 0 && !f.HasEq && len(f.Ne) == 0 && f.Lo == nil && f.Hi == nil && f.TyIn == nil && len(f.TyOut) == 0 && len(f.Tags) == 0 && f.Alias == nil
 }
 
 func (f *Fact) valueString() string {
@@ -76,6 +77,9 @@ func (f *Fact) valueString() string {
 	}
 	if len(f.Tags) > 0 {
 		sb.WriteString("#" + strings.Join(f.Tags, ",") + ";")
+	}
+	if f.Alias != nil {
+		sb.WriteString("≡" + f.Alias.Key + ";")
 	}
 	return sb.String()
 }
@@ -284,6 +288,9 @@ func joinFacts(a, b *Fact) *Fact {
 	}
 	out.TyOut = intersectStr(a.TyOut, b.TyOut)
 	out.Tags = intersectStr(a.Tags, b.Tags)
+	if a.Alias != nil && b.Alias != nil && a.Alias.Key == b.Alias.Key {
+		out.Alias = a.Alias
+	}
 	return out
 }
 
